@@ -108,7 +108,17 @@ def _ro(a):
 def _frame_form(rng, idx, L):
     """A frame object (and the index list it denotes) in one of the accepted forms."""
     idx = list(idx)
-    form = int(rng.integers(5))
+    form = int(rng.integers(6))
+    if form == 5:
+        # the last k samples, addressed from the end: range(-k, 0) / slice(-k, 0) / a list of negative indices
+        k = int(rng.integers(1, L + 1))
+        ids = list(range(L - k, L))
+        which = int(rng.integers(3))
+        if which == 0:
+            return range(-k, 0), ids
+        if which == 1:
+            return slice(-k, 0), ids
+        return [i - L for i in ids], ids
     if len(idx) == 1 and form == 0:
         return int(idx[0]), idx
     if form == 1:
@@ -157,26 +167,31 @@ def _pairs(mode, f1, f2, distance):
 def _second_call(t, factory, f, x, out, info, how='bits'):
     """A preprocess object is reused by a container for every batch: what it returns for a batch must not depend on the batches it saw
     before (this also holds for the documented batch-centring operators, which depend on the current batch only)."""
-    rng = np.random.default_rng(x.size * 31 + x.shape[0])
-    n2 = int(rng.integers(1, 8))
-    pool = np.concatenate([x, x[::-1]])
-    x2 = np.ascontiguousarray(pool[rng.integers(0, len(pool), n2)][:, rng.permutation(x.shape[1])])     # another batch: other rows, columns shuffled
-    if x2.shape[0] == x.shape[0] and np.array_equal(x2, x):
-        return
-    with np.errstate(all='ignore'):
-        again = f(_ro(x2))                      # the object under test, second batch
-        fresh = factory()(_ro(x2))              # a fresh object, same batch
-        back = f(_ro(x))                        # and the first batch once more
-
     def same(a, b):
         if how == 'bits':
             return a.shape == b.shape and bool(np.array_equal(a, b, equal_nan=True))
         with np.errstate(all='ignore'):
             sc = np.maximum(np.abs(a), np.abs(b)).max() if a.size else 1.0
             return a.shape == b.shape and bool(np.all((np.abs(a - b) <= 1e-12 * sc) | (a == b) | (np.isnan(a) & np.isnan(b))))
+    rng = np.random.default_rng(x.size * 31 + x.shape[0])
+    n2 = int(rng.integers(1, 8))
+    pool = np.concatenate([x, x[::-1]])
+    x2 = np.ascontiguousarray(pool[rng.integers(0, len(pool), n2)][:, rng.permutation(x.shape[1])])     # another batch: other rows, columns shuffled
+    if x2.shape[0] == x.shape[0] and np.array_equal(x2, x):
+        return
+    keep = np.array(out, copy=True)
+    with np.errstate(all='ignore'):
+        f(_ro(np.ascontiguousarray(x[::-1] if x.shape[0] > 1 else x[:, ::-1])))      # another batch of exactly the same shape and dtype
+    t.check(bool(np.array_equal(np.asarray(out), keep, equal_nan=True)), 'earlier_result_overwritten_by_later_call',
+            lambda: dict(info, what='the array returned for the first batch changed when a batch of the same shape was processed'))
+    with np.errstate(all='ignore'):
+        again = f(_ro(x2))                      # the object under test, second batch
+        fresh = factory()(_ro(x2))              # a fresh object, same batch
+        back = f(_ro(x))                        # and the first batch once more
+
     t.count('second_call_twins')
     t.check(same(again, fresh), 'result_depends_on_batches_seen_before', lambda: dict(info, rows_second_batch=n2, what='second batch vs fresh object'))
-    t.check(same(back, out), 'result_depends_on_batches_seen_before', lambda: dict(info, what='first batch again after another batch'))
+    t.check(same(back, keep), 'result_depends_on_batches_seen_before', lambda: dict(info, what='first batch again after another batch'))
 
 
 def _row_independence(t, f, x, out, info, how='bits', batch_op=False):
@@ -381,6 +396,13 @@ def run_timefreq(case):
     else:
         kw = dict(frame_2=slice(s2, s2 + k2))
         f1 = f2
+    if 'frame_1' in kw and rng.random() < 0.25:
+        # the last k samples addressed from the end of the trace
+        f1 = list(range(L - k, L))
+        kw['frame_1'] = [range(-k, 0), slice(-k, 0), [i - L for i in f1]][int(rng.integers(3))]
+        if 'frame_2' not in kw:
+            f2 = f1
+        t.count('negative_index_frames')
     if rng.random() < 0.15:
         kw = {}
         f1 = f2 = list(range(L))
